@@ -161,7 +161,7 @@ def strategy():
     twin = st.fixed_dictionaries({
         'ops': worldops.chunked(op, 24), 'ctl_entity': st.integers(0, 15), 'variant': st.integers(0, 2),
         'shorthand': st.integers(0, len(SHORTHANDS) - 1), 'type': st.integers(0, 7), 'after': st.integers(0, 3),
-        'valmode': st.integers(0, 2), 'prelife': st.integers(0, 2),
+        'valmode': st.integers(0, 3).map(lambda k: (0, 1, 2, 1)[k]), 'prelife': st.integers(0, 2),
         # warm: every reference attribute is read once before the shorthand is used; ops2: what happens to the world
         # AFTER the shorthand was used (then every reference attribute is read again)
         'warm': st.integers(0, 1), 'ops2': worldops.chunked(op2, 8, chunk=4)})
